@@ -27,10 +27,12 @@ open SaModel SaModel.Build SaModel.Spec
 /-- **R1.** Every successful `push` (any serde value, any builder family, any nesting) keeps the builder state
 well formed and appends exactly one logical row.  `Safe b` is a property of the schema (no dictionary with
 non-nullable keys below a nullable struct / fixed-size list — see `dict_placeholder_unstable` for why it is
-needed), `rawOK x` says that raw key/value call streams inside `x` alternate (vacuous without `mapRaw`). -/
-theorem push_appends (ext : Ext) (x : SVal) (b b' : B) (hraw : rawOK x = true) (hwf : WFB b) (hsafe : Safe b)
+needed).  No hypothesis on the value: raw key/value call streams (`SVal.mapRaw`) that do not alternate are REFUSED
+by a Map builder since repo fix bcc3416 (`map_refuses_non_alternating` below; the former hypothesis `rawOK x` is
+gone), a struct builder accepts them and stays well formed. -/
+theorem push_appends (ext : Ext) (x : SVal) (b b' : B) (hwf : WFB b) (hsafe : Safe b)
     (h : push ext b x = .ok b') : WFB b' ∧ Safe b' ∧ ∃ lv, dec b' = dec b ++ [lv] := by
-  obtain ⟨a, d⟩ := Build.push_appends ext x b b' hraw hwf hsafe h
+  obtain ⟨a, d⟩ := Build.push_appends ext x b b' hwf hsafe h
   exact ⟨a, Safe.of_takeRest (push_takeRest ext x b b' h) hsafe, d⟩
 
 /-- a null appends exactly the null row -/
@@ -77,19 +79,45 @@ theorem push_leaf_dec (ext : Ext) (p : String) (k : LeafKind) (v : Validity) (va
 
 /-- the list element loop raises the open (last) offset by the number of elements and appends that many rows to
 the element builder -/
-theorem pushElems_spec (ext : Ext) (xs : SVals) (hraw : rawOKs xs = true) (large : Bool) (el : B) (base : List Int)
+theorem pushElems_spec (ext : Ext) (xs : SVals) (large : Bool) (el : B) (base : List Int)
     (l : Int) (r : B × List Int) (hwf : WFB el) (hsafe : Safe el)
     (h : pushElems ext large el (base ++ [l]) xs = .ok r) :
     WFB r.1 ∧ ∃ ls, dec r.1 = dec el ++ ls ∧ r.2 = base ++ [l + (ls.length : Int)] :=
-  Build.pushElems_appends ext xs hraw large el base l r hwf hsafe h
+  Build.pushElems_appends ext xs large el base l r hwf hsafe h
 
 /-- map entries keep keys and values in step -/
-theorem pushMapEntries_spec (ext : Ext) (es : SEntries) (hraw : rawOKe es = true) (base : List Int) (l : Int)
+theorem pushMapEntries_spec (ext : Ext) (es : SEntries) (base : List Int) (l : Int)
     (ks vs : B) (r : List Int × B × B) (hk : WFB ks) (hv : WFB vs) (hsk : Safe ks) (hsv : Safe vs)
     (h : pushMapEntries ext (base ++ [l]) ks vs es = .ok r) :
     WFB r.2.1 ∧ WFB r.2.2 ∧ ∃ lk lw : List LVal, lw.length = lk.length ∧ dec r.2.1 = dec ks ++ lk ∧
       dec r.2.2 = dec vs ++ lw ∧ r.1 = base ++ [l + (lk.length : Int)] :=
-  Build.pushMapEntries_appends ext es hraw base l ks vs r hk hv hsk hsv h
+  Build.pushMapEntries_appends ext es base l ks vs r hk hv hsk hsv h
+
+/-- a raw `serialize_key` / `serialize_value` call stream into a Map builder (flag `key_pending` reset by
+`serialize_map_start`): when it is ACCEPTED keys and values have stayed in step -/
+theorem pushMapOps_spec (ext : Ext) (ops : SMapOps) (base : List Int) (l : Int)
+    (ks vs : B) (r : List Int × B × B) (hk : WFB ks) (hv : WFB vs) (hsk : Safe ks) (hsv : Safe vs)
+    (h : pushMapOps ext false (base ++ [l]) ks vs ops = .ok r) :
+    WFB r.2.1 ∧ WFB r.2.2 ∧ ∃ lk lw : List LVal, lw.length = lk.length ∧ dec r.2.1 = dec ks ++ lk ∧
+      dec r.2.2 = dec vs ++ lw ∧ r.1 = base ++ [l + (lk.length : Int)] :=
+  Build.pushMapOps_appends ext ops base l ks vs r hk hv hsk hsv h
+
+/-- what an accepted raw stream looks like, from either state of the flag: alternating, starting with a value
+exactly if a key is pending -/
+theorem pushMapOps_ok_alternating (ext : Ext) (ops : SMapOps) (pd : Bool) (offs : List Int) (ks vs : B)
+    (r : List Int × B × B) (h : pushMapOps ext pd offs ks vs ops = .ok r) :
+    if pd then ∃ x rest, ops = .value x rest ∧ isAlternating rest = true else isAlternating ops = true :=
+  Build.pushMapOps_ok_alternating ext ops pd offs ks vs r h
+
+/-- **A Map builder refuses every raw key/value call stream that does not alternate** (two keys in a row, a value
+without a key, a trailing key — exactly the streams `Spec.interpDT` calls `malformed`), whatever the keys and values
+are and whatever state the builder is in.  Before repo fix bcc3416 such a stream was accepted and left keys and
+values of the Map array at different lengths (finding C16-map-key-value-alternation). -/
+theorem map_refuses_non_alternating (ext : Ext) (p : String) (mm : MapMeta) (v : Validity) (offs : List Int)
+    (ks vs : B) (ops : SMapOps) (hmal : isAlternating ops = false) (b' : B) :
+    push ext (.map p mm v offs ks vs) (.mapRaw ops) ≠ .ok b' := by
+  intro h
+  rw [push_map_raw_ok_alternating h] at hmal; cases hmal
 
 /-- a fresh builder is well formed, empty, and what `take` leaves behind is the builder itself -/
 theorem newDT_fresh (dt : DataType) (path : String) (nullable : Bool) (md : Metadata) (b : B)
@@ -98,30 +126,30 @@ theorem newDT_fresh (dt : DataType) (path : String) (nullable : Bool) (md : Meta
 
 /-! ### folding over the rows -/
 
-theorem foldl_push_rows (ext : Ext) : ∀ (rows : List SVal) (b b' : B), (∀ x ∈ rows, rawOK x = true) → WFB b → Safe b →
+theorem foldl_push_rows (ext : Ext) : ∀ (rows : List SVal) (b b' : B), WFB b → Safe b →
     rows.foldlM (push ext) b = .ok b' →
     WFB b' ∧ Safe b' ∧ takeRest b' = takeRest b ∧ ∃ ls, ls.length = rows.length ∧ dec b' = dec b ++ ls
-  | [], b, b', _, hwf, hs, h => by
+  | [], b, b', hwf, hs, h => by
     simp [List.foldlM, pure, Except.pure] at h; subst h
     exact ⟨hwf, hs, rfl, [], rfl, by simp⟩
-  | x :: rest, b, b', hraw, hwf, hs, h => by
+  | x :: rest, b, b', hwf, hs, h => by
     simp only [List.foldlM] at h
     obtain ⟨b1, h1, h⟩ := (bind_ok _ _ _).1 h
-    obtain ⟨hw1, hs1, lv, hd1⟩ := push_appends ext x b b1 (hraw x (by simp)) hwf hs h1
-    obtain ⟨hw', hs', ht', ls, hl, hd⟩ := foldl_push_rows ext rest b1 b' (fun y hy => hraw y (by simp [hy])) hw1 hs1 h
+    obtain ⟨hw1, hs1, lv, hd1⟩ := push_appends ext x b b1 hwf hs h1
+    obtain ⟨hw', hs', ht', ls, hl, hd⟩ := foldl_push_rows ext rest b1 b' hw1 hs1 h
     exact ⟨hw', hs', by rw [ht', push_takeRest ext x b b1 h1], lv :: ls, by simp [hl], by rw [hd, hd1]; simp⟩
 
-/-- **R3 (row count).** After all rows have been pushed the root holds exactly `rows.length` rows and every
-column has that length. -/
+/-- **R3 (row count).** After all rows have been pushed — ANY serde values, raw key/value call streams included —
+the root holds exactly `rows.length` rows and every column has that length. -/
 theorem runRows_rows (ext : Ext) (fields : List Field) (rows : List SVal) (root0 root : B)
-    (h0 : newRoot fields = .ok root0) (hsafe : Safe root0) (hraw : ∀ x ∈ rows, rawOK x = true)
+    (h0 : newRoot fields = .ok root0) (hsafe : Safe root0)
     (h : runRows ext fields rows = .ok root) :
     WFB root ∧ (dec root).length = rows.length ∧ takeRest root = root0 ∧
       ∀ col ∈ decRoot root, col.length = rows.length := by
   simp only [runRows, h0] at h
   have h : rows.foldlM (push ext) root0 = .ok root := h
   obtain ⟨hw0, hd0, ht0⟩ := newRoot_fresh h0
-  obtain ⟨hw, _, ht, ls, hl, hd⟩ := foldl_push_rows ext rows root0 root hraw hw0 hsafe h
+  obtain ⟨hw, _, ht, ls, hl, hd⟩ := foldl_push_rows ext rows root0 root hw0 hsafe h
   refine ⟨hw, by rw [hd, hd0]; simpa using hl, by rw [ht, ht0], ?_⟩
   -- the root is a non-nullable struct: its row count is `len`, and all children are at `len`
   have hroot : ∃ p len fs cached next seen, root = .struct p len none fs cached next seen := by
@@ -183,7 +211,7 @@ theorem push_interp (ext : Ext) (x : SVal) (b b' : B) (dt : DataType) (n : Bool)
     (hraw : noRaw x = true) (hwf : WFB b) (hsafe : Safe b) (hshape : Shape b dt n md) (h : push ext b x = .ok b') :
     WFB b' ∧ Safe b' ∧ Shape b' dt n md ∧ ∃ lv, dec b' = dec b ++ [lv] ∧ interpDT ext dt n md x = .ok lv := by
   have ht := push_takeRest ext x b b' h
-  obtain ⟨hw', lv, hd⟩ := Build.push_appends ext x b b' (noRaw_rawOK x hraw) hwf hsafe h
+  obtain ⟨hw', lv, hd⟩ := Build.push_appends ext x b b' hwf hsafe h
   exact ⟨hw', Safe.of_takeRest ht hsafe, Shape.of_takeRest ht hshape, lv, hd,
     Build.push_interp ext x b b' dt n md lv hraw hwf hsafe hshape h hd (WFB_small b' hw')⟩
 
@@ -226,7 +254,7 @@ theorem runRows_interp (ext : Ext) (fields : List Field) (rows : List SVal) (roo
     (∀ col ∈ decRoot root, col.length = rows.length) ∧
     ∃ p fs cached next seen, root = .struct p rows.length none fs cached next seen ∧
       dec root = (List.range rows.length).map (rowAt (decCols fs)) := by
-  have hrows := runRows_rows ext fields rows root0 root h0 hsafe (fun x hx => noRaw_rawOK x (hraw x hx)) h
+  have hrows := runRows_rows ext fields rows root0 root h0 hsafe h
   have h' := h
   simp only [runRows, h0] at h'
   have h' : rows.foldlM (push ext) root0 = .ok root := h'
@@ -292,6 +320,26 @@ example : WFB exList ∧ Safe exList := by
 
 example : ∃ b', push {} exList (.seq (.cons (.int .i8 5) (.cons (.int .i64 6) .nil))) = .ok b' ∧
     dec b' = dec exList ++ [.list (.cons (.int 5) (.cons (.int 6) .nil))] := ⟨_, rfl, by decide⟩
+
+/-- a Map column `m : Map<Utf8, Int32?>` (the replay schema of finding C16-map-key-value-alternation in small) -/
+def exMapFields : List Field :=
+  [.mk "m" (.map (.mk "entries" (.struct (.cons (.mk "key" .utf8 false []) (.cons (.mk "value" .int32 true []) .nil))) false []) false) false []]
+
+/-- `map_refuses_non_alternating` / R1 without `rawOK`: two keys in a row, a value without a key and a trailing key
+are refused with the Map builder's annotated error; the alternating stream is accepted and is ONE row with two entries -/
+example : runRows {} exMapFields [.record "R" (.cons "m" 0 (.mapRaw (.key (.str "x") (.key (.str "") .nil))) .nil)] =
+    .error (.errCtx "Invalid map: a key was serialized before the value of the previous key"
+      [("data_type", "Map(..)"), ("field", "$.m")]) := by decide +kernel
+example : (runRows {} exMapFields [.record "R" (.cons "m" 0 (.mapRaw (.value (.int .i32 1) .nil)) .nil)]).isErr = true := by
+  decide +kernel
+example : (runRows {} exMapFields [.record "R" (.cons "m" 0 (.mapRaw (.key (.str "x") .nil)) .nil)]).isErr = true := by
+  decide +kernel
+example : (do
+      let root ← runRows {} exMapFields [.record "R" (.cons "m" 0
+        (.mapRaw (.key (.str "x") (.value (.int .i32 1) (.key (.str "y") (.value .none .nil))))) .nil)]
+      pure (decRoot root) : R (List (List LVal))) =
+    .ok [[.map (.cons (.str [120]) (.int 1) (.cons (.str [121]) .null .nil))]] := by decide +kernel
+example : isAlternating (.key (.str "x") (.key (.str "") .nil)) = false := by decide
 
 /-- a root over two columns; the second record presents its fields in the other order -/
 example : (do
